@@ -62,6 +62,19 @@ Theorem C11_commit_is_child_of_loaded_head n cap evs cw r e id au cw' : crun fix
 Proof. exact (Cache.C11_commit_is_child_of_loaded_head n cap evs cw r e id au cw'). Qed.
 Print Assumptions C11_commit_is_child_of_loaded_head.
 
+(* saving with CommitAsNeeded (terminal UI, bridge exporters): with staged operations it is exactly Commit (so the theorems above
+   and C11_coherent cover it: the excerpt, the index document and the cache file are refreshed after the commit); with nothing
+   staged it succeeds, writes nothing and leaves everything the cache serves as it was *)
+Theorem C11_commit_as_needed n cap evs cw r e id au m : crun fixed cap (cw0 n) evs = Some cw -> r < length (ucs cw) ->
+  kget e (sl (cb (ucache_of cw r))) = Some m ->
+  (is_dirty m = true -> cstep fixed cap cw (VCommitAsNeeded r e id au) = cstep fixed cap cw (VCommit r e id au)) /\
+  (is_dirty m = false -> exists cw', cstep fixed cap cw (VCommitAsNeeded r e id au) = Some (cw', CDone) /\ gw cw' = gw cw /\ iw cw' = iw cw /\
+     sx (cb (ucache_of cw' r)) = sx (cb (ucache_of cw r)) /\ si (cb (ucache_of cw' r)) = si (cb (ucache_of cw r)) /\
+     sl (cb (ucache_of cw' r)) = sl (cb (ucache_of cw r)) /\ ci (ucache_of cw' r) = ci (ucache_of cw r) /\
+     forall r', r' <> r -> ucache_of cw' r' = ucache_of cw r').
+Proof. exact (Cache.C11_commit_as_needed n cap evs cw r e id au m). Qed.
+Print Assumptions C11_commit_as_needed.
+
 (* the code as found: each defect alone leads to a quiescent state that is not coherent *)
 Theorem C11_index_on_merge_refuted :
   refuted {| v_index_merged := false; v_ident_updated := true; v_merge_result := true; v_keep_newest := true |} 2.
@@ -101,3 +114,15 @@ Example C11_pull_over_staged_session :
   (exists cw, crun fixed 2 (cw0 2) (witness_pull_over_staged ++ [VResolve 1 0; VStage 1 0 202%N; VCommit 1 0 12%N 2%N]) = Some cw /\
               gfb (gw cw) 1 0 = Some (2, [100%N; 101%N; 202%N]) /\ parents (st (ww (gw cw))) 2 = [1]).
 Proof. exact Cache.pull_over_staged_runs_fixed. Qed.
+
+(* a bug edited and saved with CommitAsNeeded: one commit on top of its head, quiescent, excerpt = the committed bug; CommitAsNeeded
+   again (bug, then identity) with nothing staged: success, git data and excerpts unchanged *)
+Example C11_commit_as_needed_session :
+  (exists cw, crun fixed 2 (cw0 2) witness_commit_as_needed = Some cw /\ quiescentb_at cw 0 = true /\
+              gfb (gw cw) 0 0 = Some (2, [100%N; 101%N]) /\ parents (st (ww (gw cw))) 2 = [0] /\
+              kget 0 (sx (cb (ucache_of cw 0))) = Some (clean (2, [100%N; 101%N])) /\
+              exists cw', cstep fixed 2 cw (VCommitAsNeeded 0 0 0%N 0%N) = Some (cw', CDone) /\ gw cw' = gw cw /\
+                          sx (cb (ucache_of cw' 0)) = sx (cb (ucache_of cw 0)) /\
+                          exists cw'', cstep fixed 2 cw' (VIdCommitAsNeeded 0 0) = Some (cw'', CDone) /\ iw cw'' = iw cw /\
+                                       sx (ci (ucache_of cw'' 0)) = sx (ci (ucache_of cw 0))).
+Proof. exact Cache.commit_as_needed_runs_fixed. Qed.
